@@ -108,7 +108,7 @@ class TlcResult:
         for line in self.out.splitlines():
             if line.startswith('<<"%s"' % tag):
                 res.append(line)
-        return res
+        return sorted(res)           # the workers' output order is schedule dependent
 
 
 def write_cfg(path, constants=None, init="Init", next_="Next", spec=None, invariants=(), properties=(),
@@ -160,7 +160,9 @@ def run_tlc(module, cfg_path, name, workers=None, timeout=1500, env=None, extra=
     wd = os.path.join(WORK, "tlc_" + name)
     shutil.rmtree(wd, ignore_errors=True)
     os.makedirs(wd, exist_ok=True)
-    cmd = ["timeout", str(timeout), "tlc", "-workers", str(workers or NCPU), "-metadir", wd,
+    # -fp 1: a fixed fingerprint polynomial, so that the state ids of dumped graphs (and every sample drawn from them)
+    # are the same in every run with the same seed
+    cmd = ["timeout", str(timeout), "tlc", "-fp", "1", "-workers", str(workers or NCPU), "-metadir", wd,
            "-noGenerateSpecTE", "-config", cfg_path]
     if coverage:
         cmd += ["-coverage", "1"]
@@ -371,6 +373,10 @@ def parse_dot(path):
             m = re.match(r'^(-?\d+) -> (-?\d+) \[label="(.*?)",color', line)
             if m:
                 edges.append((m.group(1), m.group(2), m.group(3).replace('\\"', '"')))
+    # canonical order (TLC's workers write the file in a schedule-dependent order)
+    nodes = {k: nodes[k] for k in sorted(nodes)}
+    edges.sort(key=lambda e: (e[0], e[2], e[1]))
+    inits.sort()
     return nodes, edges, inits
 
 
@@ -408,8 +414,13 @@ class Check:
         self.violations = 0
         self.known = {}
         self._findings = [f for f in load_findings().get("findings", []) if f.get("property") == prop]
-        shutil.rmtree(os.path.join(REPLAYS, prop), ignore_errors=True)
-        self._n = 0
+        d = os.path.join(REPLAYS, prop)
+        if os.environ.get("VERIF_MERGE_EVIDENCE") == "1" and os.path.isdir(d):
+            # second stage of a two-stage check: keep the first stage's replay files and continue their numbering
+            self._n = len([f for f in os.listdir(d) if f.startswith("violation_")])
+        else:
+            shutil.rmtree(d, ignore_errors=True)
+            self._n = 0
         self.sigs = {}
 
     # ---- coverage counters
